@@ -100,6 +100,21 @@ def check_episode(c, ep, segs, label):
         elif latest is not None:
             c.prove(label + "notification-stamped-with-latest-market-event", e["time"] == latest,
                     info={"kind": e["kind"], "time": e["time"], "latest": latest})
+    # ---- a new-date notification comes just before the first event of each new calendar date,
+    #      and only then (events.py: "Triggered just before the first event of the date is processed")
+    prev = None
+    pending = 0
+    for e in flat:
+        if e["kind"] == "NewDate":
+            pending += 1
+            continue
+        if prev is not None:
+            changed = bool(prev["time"].date() != e["time"].date())
+            c.prove(label + "new-date-notification-iff-the-calendar-date-changes", pending == (1 if changed else 0),
+                    info={"before": [e["kind"], e["tag"], e["time"]], "after": [prev["kind"], prev["tag"], prev["time"]],
+                          "notifications": pending})
+        prev = e
+        pending = 0
     # ---- structure of environment notifications
     kinds0 = [e["kind"] for e in segs[0]]
     c.prove(label + "reset-ends-with-one-EventReset", kinds0.count("Reset") == 1 and
